@@ -8,6 +8,16 @@ impl SrtlaConnection {
     /// Register a packet as in-flight. O(1) insert.
     #[inline]
     pub fn register_packet(&mut self, seq: i32, send_time_ms: u64) {
+        // `handle_srt_ack` relies on every logged sequence being above the
+        // cumulative-ACK high-water mark (it skips ACKs at or below it and only
+        // walks the newly covered range). A (re)send at or below the mark --
+        // an SRT retransmission after the ACK passed it, or a new SRT session
+        // whose sequence space starts lower -- would otherwise never be retired
+        // by a cumulative ACK. Drop the mark so the next ACK takes the full
+        // `retain` path and re-establishes it.
+        if seq <= self.highest_acked_seq {
+            self.highest_acked_seq = i32::MIN;
+        }
         self.packet_log.insert(seq, send_time_ms);
         self.in_flight_packets = self.packet_log.len() as i32;
     }
